@@ -52,7 +52,7 @@ func ZZH_C02_block_delivery() {
 	zzInterchainWorld(exec)
 	accepted := uint64(0)
 	nonce := uint64(0)
-	for h := uint64(1); h <= 3; h++ {
+	for h := uint64(1); h <= uint64(zz.Tier(3, 4)); h++ {
 		var txs []pb.Transaction
 		expect := 0
 		switch zz.Choice("block", 3) {
